@@ -65,6 +65,8 @@ Definition action_entry (a : action) : option (list str * pnode) :=
   match a with
   | AInstall (FReg cid) p (Some m) => Some (key p, PFile m cid)
   | AInstall (FLink t _) p _ => Some (key p, PLink t)
+  | AMkdirs p m => Some (key p, PDir m)
+  | ASymlinkNew t p => Some (key p, PLink t)
   | _ => None
   end.
 
@@ -494,6 +496,419 @@ Proof.
         destruct (basename_dir_man p2 (lit "man" ++ [c]) Nm Np2 L2) as [-> ->].
         rewrite (valid_mandir_section c Hc). reflexivity.
       * injection H as <- <-. rewrite (basename_noslash _ Nm), (valid_mandir_section c Hc). reflexivity.
+Qed.
+
+(* ------------------------------------------------------------------ recursive installs (doins -r, dodoc -r) *)
+Lemma goodb_plain cs : Forall goodb cs -> Forall plain cs.
+Proof. intro H. eapply Forall_impl; [|exact H]. now intros a [P _]. Qed.
+Lemma goodb_noslash cs : Forall goodb cs -> Forall noslash cs.
+Proof. intro H. eapply Forall_impl; [|exact H]. now intros a [_ N]. Qed.
+Lemma goodb_ne cs : Forall goodb cs -> Forall (fun c => c <> [] /\ noslash c) cs.
+Proof. intro H. eapply Forall_impl; [|exact H]. intros a [(P & _) N]. now split. Qed.
+
+Lemma forallb_good cs : forallb good_name cs = true -> Forall goodb cs.
+Proof. rewrite forallb_forall, Forall_forall. intros H x Hx. apply good_name_goodb, H, Hx. Qed.
+
+Lemma step_plain_rel stk c : plain c -> norm_step false stk c = c :: stk.
+Proof.
+  intros (H1 & H2 & H3). unfold norm_step. destruct c; [congruence|]. cbn [is_nil orb].
+  rewrite (str_eqb_neq _ _ H2), (str_eqb_neq _ _ H3). reflexivity.
+Qed.
+Lemma fold_plain_rel cs : forall stk, Forall plain cs -> fold_left (norm_step false) cs stk = rev cs ++ stk.
+Proof.
+  induction cs as [|c r IH]; intros stk H; [reflexivity|]. inversion H; subst. cbn [fold_left].
+  rewrite step_plain_rel by assumption. rewrite IH by assumption. cbn [rev]. now rewrite <- app_assoc.
+Qed.
+
+Lemma join_sl_head c r : c <> [] -> noslash c -> exists x t, join_sl (c :: r) = x :: t /\ is_sl x = false.
+Proof.
+  intros Hc N. destruct c as [|x c']; [congruence|]. unfold noslash in N. cbn in N. apply andb_true_iff in N as [N _].
+  apply negb_true_iff in N. destruct r; [exists x, c'|exists x, (c' ++ SL :: join_sl (l :: r))]; split; (reflexivity || assumption).
+Qed.
+
+Lemma isabs_join_sl_good c r : c <> [] -> noslash c -> isabs (join_sl (c :: r)) = false.
+Proof.
+  intros Hc N. destruct (join_sl_head c r Hc N) as (x & t & E & Ex).
+  transitivity (isabs (x :: t)); [f_equal; exact E|exact Ex].
+Qed.
+
+(* a relative path made of ordinary components is its own normpath *)
+Lemma normpath_good cs : cs <> [] -> Forall goodb cs -> normpath (join_sl cs) = join_sl cs.
+Proof.
+  intros Hn G. destruct cs as [|c r]; [congruence|]. inversion G as [|? ? [(Pc & _) Nc] Gr]; subst.
+  destruct (join_sl_head c r Pc Nc) as (x & t & E & Ex).
+  remember (join_sl (c :: r)) as p eqn:Ep. assert (E' : p = x :: t) by (rewrite Ep; exact E). clear E. rename E' into E. rewrite E at 1.
+  unfold normpath. cbn [lead_slashes]. rewrite Ex. cbn [Nat.eqb negb repeat app].
+  unfold norm_comps. rewrite <- E, Ep. rewrite split_join by (apply goodb_noslash, G || discriminate).
+  rewrite fold_plain_rel by (apply goodb_plain, G). rewrite app_nil_r, rev_involutive.
+  rewrite <- Ep, E. reflexivity.
+Qed.
+
+Lemma join2_good_tail a b : a <> [] -> noslash a -> isabs b = false -> join2 a b = a ++ SL :: b.
+Proof.
+  intros Ha Na Hb. unfold join2. rewrite Hb. destruct (last_noslash a Ha Na) as (x & l & E & Ex). now rewrite E, Ex.
+Qed.
+
+Lemma dest_dir_string base rel : goodb base -> Forall goodb rel ->
+  normpath (join2 base (rel_string rel)) = join_sl (base :: rel).
+Proof.
+  intros [(Pb & Pb2 & Pb3) Nb] G. destruct rel as [|r1 rel'].
+  - cbn [rel_string]. rewrite join2_good_tail by (assumption || reflexivity).
+    assert (Eb : exists x t, base = x :: t /\ is_sl x = false).
+    { destruct (join_sl_head base [] Pb Nb) as (x & t & E & Ex). now exists x, t. }
+    destruct Eb as (x & t & -> & Ex).
+    unfold normpath. cbn [app lead_slashes]. rewrite Ex. cbn [Nat.eqb negb repeat app].
+    unfold norm_comps. change ((x :: t) ++ SL :: dot) with ((x :: t) ++ SL :: dot).
+    change (x :: t ++ SL :: dot) with ((x :: t) ++ SL :: dot).
+    rewrite split_app, (split_noslash_single _ Nb). change (split_sl dot) with [dot]. cbn [app fold_left].
+    rewrite (step_plain_rel [] (x :: t)) by (exact (conj Pb (conj Pb2 Pb3))).
+    unfold norm_step. cbn [is_nil dot orb str_eqb N.eqb Pos.eqb andb rev app join_sl]. reflexivity.
+  - cbn [rel_string]. inversion G as [|? ? [(P1 & _) N1] _]; subst.
+    rewrite join2_good_tail by (assumption || now apply isabs_join_sl_good).
+    change (base ++ SL :: join_sl (r1 :: rel')) with (join_sl (base :: r1 :: rel')).
+    apply normpath_good; [discriminate|]. constructor; [repeat split; assumption|exact G].
+Qed.
+
+Lemma join_sl_snoc cs n : cs <> [] -> join_sl (cs ++ [n]) = join_sl cs ++ SL :: n.
+Proof.
+  induction cs as [|c r IH]; intro H; [congruence|]. destruct r as [|c2 r'].
+  - reflexivity.
+  - change ((c :: c2 :: r') ++ [n]) with (c :: (c2 :: r') ++ [n]).
+    change (join_sl (c :: (c2 :: r') ++ [n])) with (c ++ SL :: join_sl ((c2 :: r') ++ [n])).
+    rewrite IH by discriminate. change (join_sl (c :: c2 :: r')) with (c ++ SL :: join_sl (c2 :: r')).
+    now rewrite <- app_assoc.
+Qed.
+
+Lemma join_sl_last_noslash cs : cs <> [] -> Forall goodb cs -> exists x l, rev (join_sl cs) = x :: l /\ is_sl x = false.
+Proof.
+  intros Hn G. destruct (exists_last Hn) as (ini & lst & ->).
+  apply Forall_app in G as [_ Gl]. inversion Gl as [|? ? [(Pl & _) Nl] _]; subst.
+  destruct (last_noslash lst Pl Nl) as (x & l & E & Ex).
+  destruct ini as [|i0 ini'].
+  - cbn. now exists x, l.
+  - rewrite join_sl_snoc by discriminate. rewrite rev_app_distr. cbn [rev]. rewrite <- app_assoc, E.
+    cbn [app]. eexists x, _. split; [reflexivity|exact Ex].
+Qed.
+
+Lemma join2_snoc cs n : cs <> [] -> Forall goodb cs -> goodb n -> join2 (join_sl cs) n = join_sl (cs ++ [n]).
+Proof.
+  intros Hn G Gn. unfold join2. rewrite (isabs_good n Gn).
+  destruct (join_sl_last_noslash cs Hn G) as (x & l & E & Ex). rewrite E, Ex. now rewrite join_sl_snoc.
+Qed.
+
+Lemma key_join_comps a cs : cs <> [] -> Forall goodb cs -> key (join2 a (join_sl cs)) = key a ++ cs.
+Proof.
+  intros Hn G. destruct cs as [|c r]; [congruence|]. inversion G as [|? ? [(Pc & _) Nc] _]; subst.
+  assert (A : isabs (join_sl (c :: r)) = false) by now apply isabs_join_sl_good.
+  rewrite !key_rel. unfold rel_resolve. destruct a as [|y a].
+  - unfold join2. rewrite A. cbn [rev]. rewrite split_join by (apply goodb_noslash, G || discriminate).
+    rewrite run_plain by (apply goodb_plain, G). rewrite app_nil_r, rev_involutive. reflexivity.
+  - rewrite run_split_join2 by (discriminate || assumption).
+    rewrite split_join by (apply goodb_noslash, G || discriminate).
+    rewrite run_plain by (apply goodb_plain, G). rewrite rev_app_distr, rev_involutive. reflexivity.
+Qed.
+
+Lemma lstrip_join_sl cs : cs <> [] -> Forall goodb cs -> lstrip_sl (join_sl cs) = join_sl cs.
+Proof.
+  intros Hn G. destruct cs as [|c r]; [congruence|]. inversion G as [|? ? [(Pc & _) Nc] _]; subst.
+  destruct (join_sl_head c r Pc Nc) as (x & t & E & Ex).
+  transitivity (lstrip_sl (x :: t)); [f_equal; exact E|]. unfold lstrip_sl. cbn. rewrite Ex. symmetry. exact E.
+Qed.
+
+Lemma key_under_comps dest cs : cs <> [] -> Forall goodb cs -> key (under dest (join_sl cs)) = comps dest ++ cs.
+Proof.
+  intros Hn G. unfold under, edjoin. rewrite lstrip_join_sl, key_join_comps by assumption. now rewrite key_lstrip.
+Qed.
+
+Lemma opt_all_map_entries {A} (spec : A -> option (list str * pnode)) (act : A -> action) l :
+  (forall a x, spec a = Some x -> action_entry (act a) = Some x) ->
+  forall xs, opt_all (map spec l) = Some xs -> map action_entry (map act l) = map Some xs.
+Proof.
+  intro H. induction l as [|a r IH]; intros xs E; cbn in E.
+  - injection E as <-. reflexivity.
+  - destruct (spec a) as [x|] eqn:Ea; [|discriminate]. destruct (opt_all (map spec r)) as [ys|]; [|discriminate].
+    injection E as <-. cbn [map]. rewrite (H a x Ea), (IH ys eq_refl). reflexivity.
+Qed.
+
+(* one os.walk entry of a directory argument *)
+Lemma tree_one_entries sl c mode base w l :
+  goodb base -> c_insmode c = Some mode ->
+  tree_one sl (comps (c_dest c)) (c_dirmode c) mode base w = Some l ->
+  let dd := normpath (join2 base (rel_string (w_rel w))) in
+  map action_entry
+    (AMkdirs (under (c_dest c) dd) (c_dirmode c)
+     :: map (fun nt => ASymlinkNew (snd nt) (under (c_dest c) (join2 dd (fst nt)))) (w_dlinks w)
+     ++ map (fun nf => AInstall (snd nf) (under (c_dest c) (join2 dd (fst nf))) (c_insmode c)) (w_files w))
+  = map Some l.
+Proof.
+  intros Gb Hm H dd. unfold tree_one in H.
+  destruct (forallb good_name (w_rel w)) eqn:Gr; [|discriminate]. cbn [negb] in H. apply forallb_good in Gr.
+  assert (Gall : Forall goodb (base :: w_rel w)) by (constructor; assumption).
+  assert (Edd : dd = join_sl (base :: w_rel w)) by (apply dest_dir_string; assumption).
+  destruct (opt_all (map (tree_dlink sl (comps (c_dest c) ++ base :: w_rel w)) (w_dlinks w))) as [ls|] eqn:E1; [|discriminate].
+  destruct (opt_all (map (tree_file sl (comps (c_dest c) ++ base :: w_rel w) mode) (w_files w))) as [fs|] eqn:E2; [|discriminate].
+  injection H as <-. cbn [map action_entry]. rewrite map_app, Edd. rewrite key_under_comps by (discriminate || assumption).
+  f_equal. rewrite map_app. f_equal.
+  - apply (opt_all_map_entries (tree_dlink sl (comps (c_dest c) ++ base :: w_rel w))); [|exact E1].
+    intros [n t] x Hx. unfold tree_dlink in Hx. cbn [fst snd] in *.
+    destruct (good_name n) eqn:Gn; [|discriminate]. destruct sl; [|discriminate]. injection Hx as <-.
+    apply good_name_goodb in Gn. cbn [action_entry].
+    rewrite join2_snoc, key_under_comps by (assumption || discriminate || (apply Forall_app; split; [assumption|now constructor]) || (intro Q; destruct (w_rel w); discriminate)).
+    now rewrite <- app_assoc.
+  - apply (opt_all_map_entries (tree_file sl (comps (c_dest c) ++ base :: w_rel w) mode)); [|exact E2].
+    intros [n f] x Hx. unfold tree_file in Hx. cbn [fst snd] in *.
+    destruct (good_name n) eqn:Gn; [|discriminate]. cbn [negb] in Hx. apply good_name_goodb in Gn.
+    assert (K : key (under (c_dest c) (join2 (join_sl (base :: w_rel w)) n)) = (comps (c_dest c) ++ base :: w_rel w) ++ [n]).
+    { rewrite join2_snoc, key_under_comps by (assumption || discriminate || (apply Forall_app; split; [assumption|now constructor])).
+      now rewrite <- app_assoc. }
+    destruct f as [cid|t ok].
+    + destruct (negb sl && false); [discriminate|]. cbn in Hx. injection Hx as <-. rewrite Hm. cbn [action_entry]. now rewrite K.
+    + destruct sl; cbn in Hx; [|discriminate]. destruct ok; injection Hx as <-; cbn [action_entry]; now rewrite K.
+Qed.
+
+
+(* a whole directory argument: induction over the os.walk listing of the source tree *)
+Lemma from_dir_entries sl c mode d walk l :
+  c_insmode c = Some mode ->
+  tree_entries sl (comps (c_dest c)) (c_dirmode c) mode d walk = Some l ->
+  map action_entry (from_dir c d walk) = map Some l.
+Proof.
+  intros Hm H. unfold tree_entries in H. destruct (good_name (basename (rstrip_sl d))) eqn:Gb; [|discriminate].
+  apply good_name_goodb in Gb. unfold from_dir. revert l H.
+  induction walk as [|w r IH]; intros l H; cbn [tree_walk] in H.
+  - injection H as <-. reflexivity.
+  - destruct (tree_one sl (comps (c_dest c)) (c_dirmode c) mode (basename (rstrip_sl d)) w) as [a|] eqn:E1; [|discriminate].
+    destruct (tree_walk sl (comps (c_dest c)) (c_dirmode c) mode (basename (rstrip_sl d)) r) as [b|] eqn:E2; [|discriminate].
+    injection H as <-. cbn [map concat]. rewrite !map_app, (IH b eq_refl). f_equal.
+    exact (tree_one_entries sl c mode _ w a Gb Hm E1).
+Qed.
+
+Lemma from_dirs_entries sl c mode pos l :
+  c_insmode c = Some mode ->
+  dirs_entries sl (comps (c_dest c)) (c_dirmode c) mode pos = Some l ->
+  map action_entry (from_dirs c pos) = map Some l.
+Proof.
+  intros Hm. unfold from_dirs. revert l. induction pos as [|a r IH]; intros l H; cbn [dirs_entries] in H.
+  - injection H as <-. reflexivity.
+  - destruct (snd a) as [f|lnk w|] eqn:Ea.
+    + destruct (dirs_entries sl (comps (c_dest c)) (c_dirmode c) mode r) as [y|]; [|discriminate].
+      injection H as <-. cbn [map concat]. rewrite Ea. cbn [app]. apply IH. reflexivity.
+    + destruct (tree_entries sl (comps (c_dest c)) (c_dirmode c) mode (fst a) w) as [x|] eqn:E1; [|discriminate].
+      destruct (dirs_entries sl (comps (c_dest c)) (c_dirmode c) mode r) as [y|]; [|discriminate].
+      injection H as <-. cbn [map concat]. rewrite Ea, !map_app, (IH y eq_refl). f_equal.
+      eapply from_dir_entries; eassumption.
+    + destruct (dirs_entries sl (comps (c_dest c)) (c_dirmode c) mode r) as [y|]; [|discriminate].
+      injection H as <-. cbn [map concat]. rewrite Ea. cbn [app]. apply IH. reflexivity.
+Qed.
+
+Lemma base_action_entry dest : action_entry (base_action dest) = Some (comps dest, PDir None).
+Proof. unfold base_action. cbn [action_entry]. now rewrite key_lstrip. Qed.
+
+(* doins -r and dodoc -r: the image below <dest> is exactly the source trees of the directory
+   arguments (directories, symlinks kept as links, files with the requested mode) followed by
+   the file arguments *)
+Theorem recursive_placement_proof : forall sl g c mode pos l,
+  c_insmode c = Some mode ->
+  recursive_entries sl (comps (c_dest c)) (c_dirmode c) mode pos = Some l ->
+  let acts := base_action (c_dest c) :: from_dirs c (dirs_of pos) ++ install_basenames c (files_of pos) in
+  map action_entry acts = Some (comps (c_dest c), PDir None) :: map Some l
+  /\ plan_doins c true pos = inl acts
+  /\ (forall r, dirs_of pos <> [] -> r && g_dodoc_r g = true -> plan_dodoc g c r pos = inl acts).
+Proof.
+  intros sl g c mode pos l Hm H acts. unfold recursive_entries in H.
+  destruct (dirs_entries sl (comps (c_dest c)) (c_dirmode c) mode (dirs_of pos)) as [ds|] eqn:E1; [|discriminate].
+  destruct (flat_files (comps (c_dest c)) mode (files_of pos)) as [fl|] eqn:E2; [|discriminate].
+  injection H as <-. split; [|split].
+  - unfold acts. cbn [map]. rewrite base_action_entry, !map_app. f_equal. f_equal.
+    + eapply from_dirs_entries; eassumption.
+    + eapply base_placement_proof; eassumption.
+  - reflexivity.
+  - intros r Hd Hr. unfold plan_dodoc. destruct (dirs_of pos) eqn:Ed; [congruence|]. rewrite Hr. reflexivity.
+Qed.
+
+Example recursive_example : exists l,
+  tree_entries true [lit "usr"] (Some 493%N) 420%N (lit "d/")
+    [ {| w_rel := []; w_dlinks := [(lit "dl", lit "sub")];
+         w_files := [(lit "e.txt", FReg 7%N); (lit "lnk", FLink (lit "/x") false)] |};
+      {| w_rel := [lit "sub"]; w_dlinks := []; w_files := [(lit "f.png", FReg 8%N)] |} ] = Some l
+  /\ length l = 6%nat
+  /\ In ([lit "usr"; lit "d"; lit "sub"; lit "f.png"], PFile 420%N 8%N) l
+  /\ In ([lit "usr"; lit "d"; lit "lnk"], PLink (lit "/x")) l.
+Proof. eexists. split; [vm_compute; reflexivity|]. split; [reflexivity|]. split; cbn; intuition. Qed.
+
+(* ------------------------------------------------------------------ domo *)
+Lemma basename_is_noslash x : noslash (basename x).
+Proof.
+  unfold basename, noslash. rewrite forallb_rev. induction (rev x) as [|c r IH]; [reflexivity|].
+  cbn [takewhile]. destruct (negb (is_sl c)) eqn:E; [|reflexivity]. cbn. now rewrite E.
+Qed.
+
+Lemma domo_lang_splitext b lang : noslash b -> pms_domo_lang b = Some lang ->
+  fst (splitext b) = lang /\ goodb lang.
+Proof.
+  intros Nb H. unfold pms_domo_lang, dot_parts in H.
+  pose proof (join_split_on 46 b) as J. pose proof (split_on_nosep 46 b) as NS.
+  destruct (split_on 46 b) as [|p1 [|p2 [|p3 rest]]]; try discriminate.
+  destruct (simple_stem p1) eqn:S1; [|discriminate]. injection H as <-.
+  destruct (simple_stem_facts _ S1) as (N1 & D1 & L1 & A1).
+  cbn [join_on] in J. change (p1 ++ DOT :: p2 = b) in J. subst b.
+  inversion NS as [|? ? _ NS2]; subst. inversion NS2 as [|? ? D2 _]; subst.
+  rewrite (splitext_root_sec p1 p2 Nb) by assumption. split; [reflexivity|].
+  split; [|exact L1]. repeat split; [assumption| |]; intro Q; subst; cbn in *; discriminate.
+Qed.
+
+Theorem domo_placement_proof : forall c pn x f lang mode,
+  c_insmode c = Some mode -> goodb (pn ++ lit ".mo") ->
+  pms_domo_lang (basename x) = Some lang ->
+  map action_entry (domo_plan c pn [(x, SFile f)])
+  = [Some (comps (c_dest c) ++ [lang; lit "LC_MESSAGES"], PDir (c_dirmode c));
+     action_entry (AInstall f (under (c_dest c) (join_sl [lang; lit "LC_MESSAGES"; pn ++ lit ".mo"])) (Some mode))]
+  /\ key (under (c_dest c) (join_sl [lang; lit "LC_MESSAGES"; pn ++ lit ".mo"]))
+     = comps (c_dest c) ++ [lang; lit "LC_MESSAGES"; pn ++ lit ".mo"].
+Proof.
+  intros c pn x f lang mode Hm Gn H.
+  destruct (domo_lang_splitext _ lang (basename_is_noslash x) H) as [E Gl].
+  assert (GL : goodb (lit "LC_MESSAGES")) by (split; [repeat split; discriminate|reflexivity]).
+  assert (G2 : Forall goodb [lang; lit "LC_MESSAGES"]) by (constructor; [exact Gl|constructor; [exact GL|constructor]]).
+  assert (G3 : Forall goodb [lang; lit "LC_MESSAGES"; pn ++ lit ".mo"]) by (constructor; [exact Gl|constructor; [exact GL|constructor; [exact Gn|constructor]]]).
+  split; [|apply key_under_comps; [discriminate|exact G3]].
+  unfold domo_plan. cbn [map concat fst snd app install_one].
+  assert (Eb : fst (splitext (basename (basename x))) = lang).
+  { rewrite (basename_noslash _ (basename_is_noslash x)). exact E. }
+  assert (Ed : join2 (fst (splitext (basename x))) (lit "LC_MESSAGES") = join_sl [lang; lit "LC_MESSAGES"]).
+  { rewrite E. apply (join2_snoc [lang]); [discriminate|constructor; [exact Gl|constructor]|exact GL]. }
+  rewrite Ed. cbn [action_entry map]. rewrite key_under_comps by (discriminate || assumption).
+  rewrite (join2_snoc [lang; lit "LC_MESSAGES"]) by (discriminate || assumption). rewrite Hm. reflexivity.
+Qed.
+
+(* the domo wrapper: below the `into` directory while DESTTREE exists (EAPI < 7), /usr/share/locale after *)
+Theorem domo_dest_is_pms_proof :
+  (forall g v, dest_of g "domo" v = Some (if g_has_desttree g then v_desttree v ++ lit "/share/locale"
+                                          else lit "/usr/share/locale"))
+  /\ forallb (fun e => match gates_of e with
+                       | Some g => Bool.eqb (negb (g_has_desttree g)) (pms_domo_ignores_into (decimal e))
+                       | None => false end) numbered_eapis = true.
+Proof.
+  split; [|vm_compute; reflexivity].
+  intros g v. unfold dest_of. destruct (g_has_desttree g) eqn:E; cbv -[app g_has_desttree]; rewrite E; rewrite ?app_nil_r; reflexivity.
+Qed.
+
+
+(* ------------------------------------------------------------------ dohtml, non-recursive *)
+Lemma split_on_single s b p : split_on s b = [p] -> p = b /\ nosep s b.
+Proof.
+  intro H. pose proof (join_split_on s b) as J. pose proof (split_on_nosep s b) as NS. rewrite H in *.
+  cbn in J. subst p. split; [reflexivity|now inversion NS].
+Qed.
+
+Lemma html_allowed_is_pms o x v : pms_html_ok o (basename x) = Some v -> html_allowed o x = v.
+Proof.
+  unfold pms_html_ok, html_allowed, dot_parts. intro H.
+  pose proof (basename_is_noslash x) as Nb.
+  pose proof (join_split_on 46 (basename x)) as J. pose proof (split_on_nosep 46 (basename x)) as NS.
+  destruct (split_on 46 (basename x)) as [|p1 [|p2 [|p3 rest]]] eqn:ES; try discriminate.
+  - injection H as <-. destruct (split_on_single _ _ _ ES) as [_ D].
+    rewrite (splitext_nodot _ Nb D). reflexivity.
+  - destruct (simple_stem p1) eqn:S1; [|discriminate]. injection H as <-.
+    destruct (simple_stem_facts _ S1) as (N1 & D1 & L1 & A1).
+    cbn [join_on] in J. change (p1 ++ DOT :: p2 = basename x) in J.
+    inversion NS as [|? ? _ NS2]; subst. inversion NS2 as [|? ? D2 _]; subst.
+    rewrite <- J in *. rewrite (splitext_root_sec p1 p2 Nb) by assumption. reflexivity.
+Qed.
+
+Lemma run_lstrip S p : run S (split_sl (lstrip_sl p)) = run S (split_sl p).
+Proof.
+  unfold lstrip_sl. induction p as [|c p IH]; [reflexivity|]. cbn [dropwhile]. destruct (is_sl c) eqn:E; [|reflexivity].
+  rewrite IH. cbn [split_sl]. rewrite E. now rewrite run_cons.
+Qed.
+
+Lemma isabs_lstrip p : isabs (lstrip_sl p) = false.
+Proof.
+  unfold lstrip_sl. induction p as [|c p IH]; [reflexivity|]. cbn [dropwhile]. destruct (is_sl c) eqn:E; [exact IH|].
+  cbn. exact E.
+Qed.
+
+Lemma comps_join_lstrip_ne dest p : dest <> [] -> comps (join2 dest (lstrip_sl p)) = comps (dest ++ SL :: p).
+Proof.
+  intro Hn. change (rel_resolve (join2 dest (lstrip_sl p)) = rel_resolve (dest ++ SL :: p)). unfold rel_resolve.
+  rewrite run_split_join2 by (assumption || apply isabs_lstrip). rewrite run_lstrip, split_app, run_app. reflexivity.
+Qed.
+
+Lemma comps_join_lstrip dest p : comps (join2 dest (lstrip_sl p)) = comps (dest ++ SL :: p).
+Proof.
+  destruct dest as [|y d]; [|apply comps_join_lstrip_ne; discriminate].
+  change (rel_resolve (join2 [] (lstrip_sl p)) = rel_resolve (SL :: p)). unfold rel_resolve.
+  unfold join2. rewrite isabs_lstrip. cbn [rev]. rewrite run_lstrip. reflexivity.
+Qed.
+
+(* dohtml without directory arguments: exactly the arguments whose extension is allowed
+   (defaults or -a, plus -A) or whose name is listed with -f go to <dest>/<-p prefix>/<basename> *)
+Theorem dohtml_placement_proof : forall dest mode dirm o pos l,
+  dirs_of pos = [] ->
+  (forall a, In a pos -> pms_html_ok o (basename (fst a)) <> None) ->
+  flat_files (comps (dest ++ SL :: h_p o)) mode
+    (filter (fun a => match pms_html_ok o (basename (fst a)) with Some true => true | _ => false end) pos) = Some l ->
+  exists acts, plan_dohtml dest (Some mode) dirm o pos = inl (base_action (join2 dest (lstrip_sl (h_p o))) :: acts)
+               /\ map action_entry acts = map Some l.
+Proof.
+  intros dest mode dirm o pos l Hd Hdef H. unfold plan_dohtml. rewrite Hd.
+  eexists. split; [reflexivity|].
+  assert (F : filter (fun a => html_allowed o (fst a)) pos
+              = filter (fun a => match pms_html_ok o (basename (fst a)) with Some true => true | _ => false end) pos).
+  { apply filter_ext_in. intros a Ha. specialize (Hdef a Ha).
+    destruct (pms_html_ok o (basename (fst a))) as [v|] eqn:E; [|congruence].
+    rewrite (html_allowed_is_pms o (fst a) v E). now destruct v. }
+  rewrite F. eapply base_placement_proof; [reflexivity|]. cbn [c_dest]. rewrite comps_join_lstrip. exact H.
+Qed.
+
+(* ------------------------------------------------------------------ modes *)
+Definition modes_of (g : eapi_row) (h : String.string) (v : shvars) : res (option N * option N) :=
+  match wrapper_opts g (lit h) v with Some w => helper_modes (lit h) w | None => inr [] end.
+Arguments modes_of g h%string v.
+
+Definition fst_mode (r : res (option N * option N)) : option (option N) :=
+  match r with inl (a, _) => Some a | inr _ => None end.
+
+(* the meaning of an option string "-m<octal>": that mode *)
+Lemma split_on_nosep_single s b : nosep s b -> split_on s b = [b].
+Proof.
+  unfold nosep. induction b as [|x b IH]; cbn; intro H; [reflexivity|].
+  apply andb_true_iff in H as [H1 H2]. apply negb_true_iff in H1. rewrite H1, (IH H2). reflexivity.
+Qed.
+
+Theorem install_mode_dash_m_proof : forall ds m,
+  ds <> [] -> nosep 32 ds -> octal ds = Some m -> install_mode (Some (lit "-m" ++ ds)) = Some (Some m).
+Proof.
+  intros ds m Hn Hs Ho. unfold install_mode, words.
+  assert (NS : nosep 32 (lit "-m" ++ ds)) by (unfold nosep in *; cbn; exact Hs).
+  rewrite (split_on_nosep_single _ _ NS). cbn [nonempty filter is_nil negb lit app List.length].
+  destruct ds as [|d ds']; [congruence|].
+  cbn [install_mode_words]. cbv [startswith]. cbn -[octal]. now rewrite Ho.
+Qed.
+
+(* PMS 12.3: dobin/dosbin 0755; dolib.so 0755; dolib.a 0644; dodoc doinfo doman dohtml 0644;
+   doins / doexe / dolib / dodir / keepdir: what insopts / exeopts / libopts / diropts ask for *)
+Theorem modes_are_pms_proof : forall g v,
+  (fst_mode (modes_of g "dobin" v) = Some (Some 493%N) /\ fst_mode (modes_of g "dosbin" v) = Some (Some 493%N)
+   /\ fst_mode (modes_of g "dolib.so" v) = Some (Some 493%N) /\ fst_mode (modes_of g "dolib.a" v) = Some (Some 420%N)
+   /\ fst_mode (modes_of g "dodoc" v) = Some (Some 420%N) /\ fst_mode (modes_of g "doinfo" v) = Some (Some 420%N)
+   /\ fst_mode (modes_of g "doman" v) = Some (Some 420%N) /\ fst_mode (modes_of g "dohtml" v) = Some (Some 420%N)
+   /\ fst_mode (modes_of g "domo" v) = Some (Some 420%N))
+  /\ (forall m1 m2, install_mode (Some (v_insoptions v)) = Some (Some m1) ->
+                    install_mode (Some (v_diroptions v)) = Some (Some m2) ->
+                    modes_of g "doins" v = inl (Some m1, Some m2))
+  /\ (forall m, install_mode (Some (v_exeoptions v)) = Some (Some m) -> modes_of g "doexe" v = inl (Some m, None))
+  /\ (forall m, install_mode (Some (v_liboptions v)) = Some (Some m) -> modes_of g "dolib" v = inl (Some m, None))
+  /\ (forall m, install_mode (Some (v_diroptions v)) = Some (Some m) ->
+        modes_of g "dodir" v = inl (None, Some m) /\ modes_of g "keepdir" v = inl (None, Some m)).
+Proof.
+  intros g v. split; [|split; [|split; [|split]]].
+  - repeat split; try (vm_compute; reflexivity).
+    unfold modes_of. destruct (g_has_desttree g) eqn:E; cbv -[g_has_desttree]; rewrite E; reflexivity.
+  - intros m1 m2 H1 H2. unfold modes_of. cbv -[install_mode app]. cbv -[install_mode app] in H1, H2. rewrite !app_nil_r. now rewrite H1, H2.
+  - intros m H. unfold modes_of. cbv -[install_mode app]. cbv -[install_mode app] in H. rewrite !app_nil_r. rewrite H. reflexivity.
+  - intros m H. unfold modes_of. cbv -[install_mode app]. cbv -[install_mode app] in H. rewrite !app_nil_r. rewrite H. reflexivity.
+  - intros m H. cbv -[install_mode app] in H. split; unfold modes_of; cbv -[install_mode app]; rewrite !app_nil_r; rewrite H; reflexivity.
 Qed.
 
 (* ------------------------------------------------------------------ the statements of Prop_C33 *)
